@@ -175,6 +175,20 @@ ROUND5 = {
  "C20": "Unrelated work also includes a driver connected to another (mocked MySQL 5.7) server between repetitions; the same multi-file HCL document, with locals of one file building on a local of another, is evaluated 24 times and must give one outcome.",
 }
 
+# additions of the sixth round, appended after the fifth
+ROUND6 = {
+ "C01": "An edit that changes only the storage (STORED <-> VIRTUAL) of a generated column; double-quoted string defaults.",
+ "C02": "PostgreSQL index with a written-out default operator class (edits drop-opclass, retype-drop-opclass), a column of a user-defined type changed to another one; MySQL default engine stated on a table without engine attribute, unnamed expression indexes with generated names functional_index, functional_index_2.",
+ "C04": "Span cases and re-pointed foreign keys also through the planners of drivers opened against TiDB / MariaDB (TiDB finding recorded); two-schema cases whose second schema is dropped as a whole (finding recorded).",
+ "C06": "atlas.sum edits that keep the concatenation of names and hashes (character moved from a hash to its name, two lines joined); Executor.ExecuteTo for every version of a tampered directory (library histories).",
+ "C13": "schema apply plans approved at the confirmation prompt (Enter on standard input).",
+ "C14": "Dev database holding only a virtual (fts4) table.",
+ "C16": "Requested qualifiers spelled like either of the two schemas of a spanning change set.",
+ "C18": "Tables named events (in the initial schema), _meta, news.",
+ "C19": "Skip policy written at project level next to an env whose own diff block is empty; the library skip option also with check and attribute kinds.",
+ "C20": "Three tables of the PostgreSQL base share one enum (dropping everything gives one change several later dependencies).",
+}
+
 PENDING_REASON = "check not built yet in this session (planned in DESIGN.md section 4; will be claimed once its quick check is green and sensitivity-tested)"
 
 def main():
@@ -207,6 +221,8 @@ def main():
             cat, tech, text, note, ref = CLAIMED[pid]
             if pid in ROUND5:
                 text = text + " Added after the fifth seeded-change round: " + ROUND5[pid]
+            if pid in ROUND6:
+                text = text + " Added after the sixth round: " + ROUND6[pid]
             m["checks"].append({
               "property_id": pid,
               "quick_cmd": "./check %s quick" % pid,
